@@ -156,6 +156,20 @@ def _boolish(v):
     return False
 
 
+def _text_choice(v):
+    """A value that is a string constant, or a choice between string constants: part of a message's wording."""
+    if not isinstance(v, tuple) or not v:
+        return False
+    if v[0] == 'const':
+        try:
+            return isinstance(ast.literal_eval(v[1]), str)
+        except Exception:
+            return False
+    if v[0] == 'phi':
+        return _text_choice(v[2]) and _text_choice(v[3])
+    return False
+
+
 def _truthy_const(v):
     if isinstance(v, tuple) and v and v[0] == 'const':
         try:
@@ -663,7 +677,14 @@ class Exec(object):
         return build(*ops)
 
     def msg(self, e, st, out):
-        """Message operand of raise / LOG: the text is dropped, the operands stay."""
+        """Message operand of raise / LOG: the text is dropped, the operands stay (except operands that only choose
+        between pieces of text)."""
+        v = self.msg0(e, st, out)
+        if isinstance(v, tuple) and v and v[0] == 'msg':
+            v = ('msg',) + tuple(x for x in v[1:] if not _text_choice(x))
+        return v
+
+    def msg0(self, e, st, out):
         if isinstance(e, ast.Constant) and isinstance(e.value, str):
             return ('msg',)
         if isinstance(e, ast.BinOp) and isinstance(e.op, ast.Mod) and isinstance(e.left, ast.Constant) and isinstance(e.left.value, str):
@@ -676,8 +697,8 @@ class Exec(object):
         if isinstance(e, ast.JoinedStr):
             return ('msg',) + tuple(self.ev(x.value, st, out) for x in e.values if isinstance(x, ast.FormattedValue))
         if isinstance(e, ast.BinOp) and isinstance(e.op, ast.Add):
-            l = self.msg(e.left, st, out)
-            r = self.msg(e.right, st, out)
+            l = self.msg0(e.left, st, out)
+            r = self.msg0(e.right, st, out)
             if l[0] == 'msg' and r[0] == 'msg':
                 return ('msg',) + l[1:] + r[1:]
             if l[0] == 'msg' or r[0] == 'msg':
